@@ -49,9 +49,13 @@ def call(E, name, args, kwargs):
         return VI(g[name])
     if name in ('len_called', 'failed_probe', 'len_before_failed_probe'):
         g = _ghost(args[0])
+        if name in g and g[name] is None:
+            raise Unsupported('ghost flag %s is unknown after a loop havoc' % name)
         return VC(bool(g.get(name)))
     if name == 'neg_probes':
         g = _ghost(args[0])
+        if 'neg_probe' in g and g['neg_probe'] is None:
+            raise Unsupported('ghost flag neg_probe is unknown after a loop havoc')
         return VC(bool(g.get('neg_probe')))
     if name == 'finished':
         g = _ghost(args[0])
